@@ -179,7 +179,7 @@ impl Prop for C05 {
             Leg {
                 name: "random",
                 kind: LegKind::Random {
-                    cases: tier.pick(2000, 30_000),
+                    cases: tier.pick(30000, 250000),
                 },
                 workers: 16,
                 build: Build::Normal,
